@@ -104,6 +104,7 @@ type Program struct {
 	renameCache          map[*FuncInfo]map[string]string
 	sigRenameCache       map[*FuncInfo]map[string]string
 	counterCache         map[*FuncInfo]map[string]int
+	Renamed              []string // functions under contract found under a new name (rebindRenamedFuncs)
 	repair               map[string]*repairState // functions being re-verified with re-bound loop invariants (repair.go)
 }
 
